@@ -11,6 +11,12 @@ RULE = ('random tree networks (serial / assembly / distribution / mixed orientat
         'external outbound CST 0..4 or missing (BIG_INT) at sinks and some inner nodes; random node labels (sometimes already correctly '
         'labelled) and random insertion order; standard serial systems are additionally solved with gsm_serial (network= and keyword form). '
         'A small malformed stream (sink without demand standard deviation) must raise ValueError. '
+        'Call sequences (implementation-only oracle): every tree is solved twice on the SAME network object (results must be identical); about half of the '
+        'cases carry a what-if scenario: t = preprocess_tree(network), t solved as is (must equal the result for the raw network), then 1..3 parameters of the '
+        'PRE-PROCESSED tree t are edited (processing time 0..6, demand std, external inbound/outbound CST, holding cost, demand-bound constant) and t is solved again: '
+        'the result is checked against the full oracle (feasibility, cost recomputation, exhaustive enumeration) for the edited data and against a freshly built '
+        'network with the same data, and relabel_nodes(t) is solved too (keys mapped back through original_label). The shape of every returned dict '
+        '(exactly one integer CST per node label, label 0 included) is validated before anything else. '
         'non-trivial = at least 2 nodes and an optimal solution in which some but not all nodes hold safety stock (0 < #positive net lead times < n) '
         'or an exhaustive enumeration with at least 20 feasible vectors; distinct = distinct (normalised data, edge set).')
 
@@ -68,9 +74,34 @@ def gen_case(rng, nmax, kind=None):
         vals = rng.sample(range(0, 3 * n + 1), n)
         lab = {i: vals[i] for i in range(n)}
     order = list(range(n)); rng.shuffle(order)
+    whatif = gen_whatif(rng, n, nodes, succ, lab) if rng.random() < 0.5 else None
     return dict(kind=kind, serial_std=serial_std, malformed=None,
                 nodes=[dict(id=lab[i], **nodes[i]) for i in order],
-                edges=[[lab[a], lab[b]] for a, b in edges])
+                edges=[[lab[a], lab[b]] for a, b in edges], whatif=whatif)
+
+
+def gen_whatif(rng, n, nodes, succ, lab):
+    """1..3 edits [node label, attribute, new value] to be applied to the PRE-PROCESSED tree (what-if analysis); biased toward the
+    attributes from which preprocess_tree derives data (processing time / external inbound CST -> max replenishment times, demand std -> net std)"""
+    edits = []; seen = set()
+    for _ in range(rng.choice([1, 1, 2, 3])):
+        i = rng.randrange(n); d = nodes[i]
+        attr = rng.choice(['T', 'T', 'T', 'sigma', 'sigma', 'sigma', 'ein', 'ein', 'eout', 'h', 'z'])
+        if attr == 'sigma' and d['sigma'] is None:
+            cand = [j for j in range(n) if nodes[j]['sigma'] is not None]      # every sink has one
+            i = rng.choice(cand); d = nodes[i]
+        if attr == 'eout' and succ[i] and rng.random() < 0.7:
+            i = rng.choice([j for j in range(n) if not succ[j]]); d = nodes[i]
+        if (i, attr) in seen: continue
+        seen.add((i, attr))
+        if attr == 'T': new = rng.choice([v for v in [0, 1, 2, 3, 4, 5, 6] if v != d['T']])
+        elif attr == 'sigma': new = rng.choice([v for v in [0, 1, 2, 3, 4, 5, 6, 9, 2.5] if v != d['sigma']])
+        elif attr == 'ein': new = rng.choice([v for v in [0, 1, 2, 3] if v != (d['ein'] or 0)])
+        elif attr == 'eout': new = rng.choice([v for v in [0, 1, 2, 3, 4] if v != d['eout']])
+        elif attr == 'h': new = rng.randint(0, 40) / 4
+        else: new = rng.choice([v for v in ZS if v != d['z']])
+        edits.append([lab[i], attr, new])
+    return edits
 
 
 def correct_labelling(n, edges, rng):
@@ -90,6 +121,7 @@ def relabelled(case, rng):
     mp = dict(zip(ids, vals))
     c2 = copy.deepcopy(case)
     for d in c2['nodes']: d['id'] = mp[d['id']]
+    if c2.get('whatif'): c2['whatif'] = [[mp[i], a, v] for i, a, v in c2['whatif']]
     c2['edges'] = [[mp[a], mp[b]] for a, b in case['edges']]
     rng.shuffle(c2['edges'])      # node insertion order is kept: the default demand-bound constant is that of the FIRST sink having one
     return c2, mp
@@ -113,13 +145,54 @@ def build_net(case):
     return net
 
 
-def run_tree(case):
+def intkey(k):
+    try: return int(k) if (not isinstance(k, bool) and k == int(k)) else k
+    except Exception: return k
+
+
+def run_tree(case, net=None):
+    """solve a freshly built network of the case (or the given network object)"""
     from stockpyl import gsm_tree
     try:
-        cst, cost = gsm_tree.optimize_committed_service_times(build_net(case))
-        return ('ok', {int(k): v for k, v in cst.items()}, cost)
+        cst, cost = gsm_tree.optimize_committed_service_times(build_net(case) if net is None else net)
+        return ('ok', {intkey(k): v for k, v in cst.items()}, cost)
     except Exception as e:
         return ('err', exc_kind(e), str(e)[:200])
+
+
+def shape_problem(ids, cst, cost):
+    """the documented shape of the result: dict with exactly the node indices as keys, integer CSTs, a finite float cost"""
+    import numbers
+    if not isinstance(cst, dict): return 'returned CSTs are not a dict: %r' % (cst,)
+    if set(cst) != set(ids) or len(cst) != len(ids):
+        return 'returned keys %r != node indices %r' % (sorted(cst, key=repr), sorted(ids))
+    for k, v in cst.items():
+        if isinstance(v, bool) or not isinstance(v, numbers.Real) or not math.isfinite(v) or v != int(v):
+            return 'cst of node %r is %r, not an integer' % (k, v)
+    if isinstance(cost, bool) or not isinstance(cost, numbers.Real) or not math.isfinite(cost):
+        return 'reported cost %r is not a finite number' % (cost,)
+    return None
+
+
+ATTR = dict(T='processing_time', h='local_holding_cost', z='demand_bound_constant', ein='external_inbound_cst', eout='external_outbound_cst')
+
+
+def apply_edits(tree, edits):
+    for i, attr, v in edits:
+        nd = tree.nodes_by_index[i]
+        if attr == 'sigma': nd.demand_source.standard_deviation = v
+        else: setattr(nd, ATTR[attr], v)
+
+
+def edited_case(case, edits):
+    """the data of the pre-processed tree after the edits: the documented defaults (demand-bound constant of the first sink that has one,
+    external inbound CST 0) made explicit - independently recomputed by Ind -, then the edits"""
+    ind = Ind(case)
+    c2 = copy.deepcopy(case); c2['whatif'] = None; c2['serial_std'] = False
+    for d in c2['nodes']: d['z'] = ind.z[d['id']]; d['ein'] = ind.ein[d['id']]
+    by = {d['id']: d for d in c2['nodes']}
+    for i, attr, v in edits: by[i][attr] = v
+    return c2
 
 
 def impl_prep(case):
@@ -319,18 +392,22 @@ def case_key(case):
     return json.dumps([[t[1:] for t in ind], sorted([rank[a], rank[b]] for a, b in case['edges'])])
 
 
-def oracle_tree(chk, case, r, enum_limit, rng, sigs):
-    """oracle on gsm_tree's own output; returns (ind, info) ; reports through chk.fail"""
+def oracle_tree(chk, case, r, enum_limit, rng, sigs, tag='', report=None, pre=''):
+    """oracle on gsm_tree's own output for the data of `case`; returns (ind, info) ; reports through chk.fail (input reported: `report` or the case;
+    `tag` is appended to the signatures and `pre` prefixed to the texts when the output comes from a call sequence)"""
     ind = Ind(case); _, cst, cost = r
-    info = dict(enum=None)
-    if set(cst) != set(ind.ids):
-        chk.fail('gsm_tree.optimize_committed_service_times|cst-keys', 'returned keys %r != node indices %r' % (sorted(cst), sorted(ind.ids)), case); return ind, info
+    info = dict(enum=None, shape_ok=False)
+    case = report if report is not None else case
+    sp = shape_problem(ind.ids, cst, cost)
+    if sp:
+        chk.fail('gsm_tree.optimize_committed_service_times|cst-keys' + tag, pre + sp + ' (returned %r)' % (cst,), case); return ind, info
+    info['shape_ok'] = True
     bad = ind.infeasibilities(cst)
     if bad:
-        chk.fail('gsm_tree._cst_dp_tree|infeasible-cst', 'returned CSTs %r are infeasible: %r' % (cst, bad[:3]), case); return ind, info
+        chk.fail('gsm_tree._cst_dp_tree|infeasible-cst' + tag, pre + 'returned CSTs %r are infeasible: %r' % (cst, bad[:3]), case); return ind, info
     rc = ind.cost(cst)
     if not close(rc, cost):
-        chk.fail('gsm_tree._cst_dp_tree|cost-of-returned-cst', 'reported cost %r != independently recomputed cost %r of the returned CSTs %r' % (cost, rc, cst), case)
+        chk.fail('gsm_tree._cst_dp_tree|cost-of-returned-cst' + tag, pre + 'reported cost %r != independently recomputed cost %r of the returned CSTs %r' % (cost, rc, cst), case)
     size = ind.enum_size()
     if size <= enum_limit:
         best, arg, cnt = ind.enumerate_min()
@@ -338,9 +415,9 @@ def oracle_tree(chk, case, r, enum_limit, rng, sigs):
         chk.count('enumerated')
         if not close(best, cost):
             if best < cost:
-                chk.fail('gsm_tree._cst_dp_tree|not-optimal', 'reported cost %r but the feasible vector %r costs %r (%d feasible vectors enumerated)' % (cost, arg, best, cnt), case)
+                chk.fail('gsm_tree._cst_dp_tree|not-optimal' + tag, pre + 'reported cost %r but the feasible vector %r costs %r (%d feasible vectors enumerated)' % (cost, arg, best, cnt), case)
             else:
-                chk.fail('gsm_tree._cst_dp_tree|cost-below-every-feasible', 'reported cost %r is below the cheapest feasible vector %r (cost %r)' % (cost, arg, best), case)
+                chk.fail('gsm_tree._cst_dp_tree|cost-below-every-feasible' + tag, pre + 'reported cost %r is below the cheapest feasible vector %r (cost %r)' % (cost, arg, best), case)
     else:
         chk.count('enum_skipped')
     return ind, info
@@ -354,6 +431,64 @@ def compare_vectors(chk, ind, a, b, what, case, mismatch):
         return True
     mismatch(what + ': %r vs %r' % (a, b), case)
     return False
+
+
+def same_result(chk, ind, a, b, sig, what, case):
+    """two solves that must agree: b is shape-checked, costs within 1e-9, CST vectors equal up to ties"""
+    if b[0] != 'ok':
+        chk.fail(sig + ':raises-%s' % b[1], what + ': raises %s: %s' % (b[1], b[2]), case); return False
+    sp = shape_problem(ind.ids, b[1], b[2])
+    if sp:
+        chk.fail(sig + ':cst-keys', what + ': ' + sp, case); return False
+    if not close(a[2], b[2]):
+        chk.fail(sig + ':cost', what + ': cost %r vs %r (CSTs %r vs %r)' % (a[2], b[2], a[1], b[1]), case); return False
+    return compare_vectors(chk, ind, a[1], b[1], what + ': CSTs differ (beyond ties)', case, lambda w, cc: chk.fail(sig + ':cst', w, cc))
+
+
+def oracle_sequences(chk, case, r, enum_limit):
+    """call sequences on the SAME objects (implementation only). r = ('ok', cst, cost) of a freshly built network, shape already validated.
+    (a) the same network object solved twice; (b) what-if scenario case['whatif']: preprocess_tree, solve, edit the pre-processed tree, solve again
+    (full oracle for the edited data + comparison with a freshly built network of the edited data), solve relabel_nodes(edited tree)."""
+    from stockpyl import gsm_tree
+    ind = Ind(case)
+    net = build_net(case)
+    for nth in ('first', 'second'):
+        x = run_tree(case, net)
+        chk.count('seq_same_object_solves')
+        if x[0] != 'ok' or x[1] != r[1] or x[2] != r[2]:      # the same deterministic computation: identical, not merely close
+            chk.fail('gsm_tree.optimize_committed_service_times|repeated-call-on-same-network', '%s solve of one network object gives %r, a fresh network %r' % (nth, x, r), case); return
+    edits = case.get('whatif')
+    if not edits: return
+    chk.count('whatif_scenarios'); chk.count('whatif_edits=%d' % len(edits))
+    for _, a, _ in edits: chk.count('whatif_attr=%s' % a)
+    try:
+        t = gsm_tree.preprocess_tree(net)
+    except Exception as e:
+        chk.fail('gsm_tree.preprocess_tree|raises-%s' % exc_kind(e), str(e)[:200], case); return
+    r0 = run_tree(case, t)
+    if not same_result(chk, ind, r, r0, 'gsm_tree.optimize_committed_service_times|preprocessed-tree-as-input', 'pre-processed tree vs raw network', case): return
+    apply_edits(t, edits)
+    cB = edited_case(case, edits)
+    indB = Ind(cB)
+    pre = 'after t = preprocess_tree(network) and the edits %r of t: ' % (edits,)
+    rE = run_tree(cB, t)
+    if rE[0] != 'ok':
+        chk.fail('gsm_tree.optimize_committed_service_times|raises-%s|edited-preprocessed-tree' % rE[1], pre + 'raises %s: %s' % (rE[1], rE[2]), case); return
+    _, infoB = oracle_tree(chk, cB, rE, enum_limit, None, None, tag='|edited-preprocessed-tree', report=case, pre=pre)
+    if not infoB['shape_ok']: return
+    rF = run_tree(cB)
+    if rF[0] == 'ok' and not shape_problem(indB.ids, rF[1], rF[2]):
+        same_result(chk, indB, rF, rE, 'gsm_tree.preprocess_tree|edited-preprocessed-tree-vs-fresh-network', pre + 'freshly built network with the same data vs the edited tree', case)
+    # the edited tree, relabelled by the caller: keys are the new indices, original_label maps them back
+    try:
+        t2 = gsm_tree.relabel_nodes(t)
+        back = {intkey(k.index): intkey(k.original_label) for k in t2.nodes}
+    except Exception as e:
+        chk.fail('gsm_tree.relabel_nodes|raises-%s|edited-preprocessed-tree' % exc_kind(e), pre + str(e)[:200], case); return
+    r2 = run_tree(cB, t2)
+    if r2[0] == 'ok' and isinstance(r2[1], dict) and set(r2[1]) == set(back):
+        r2 = ('ok', {back[k]: v for k, v in r2[1].items()}, r2[2])
+    same_result(chk, indB, rE, r2, 'gsm_tree.optimize_committed_service_times|relabel_nodes-output-as-input', pre + 'relabel_nodes(t) (CSTs mapped back through original_label) vs t', case)
 
 
 def explore(chk, ncases, nmax, enum_limit, do_model=True, kinds=None):
@@ -371,7 +506,7 @@ def explore(chk, ncases, nmax, enum_limit, do_model=True, kinds=None):
     preps = []
     for c, r in zip(cases, impl):
         P = None
-        if r[0] == 'ok' and not c['malformed']:
+        if r[0] == 'ok' and not c['malformed'] and not shape_problem([d['id'] for d in c['nodes']], r[1], r[2]):
             try: P = impl_prep(c)
             except Exception as e: P = None; chk.fail('gsm_tree.relabel_nodes|raises-%s' % exc_kind(e), str(e)[:200], c)
         preps.append(P)
@@ -388,18 +523,22 @@ def explore(chk, ncases, nmax, enum_limit, do_model=True, kinds=None):
                 sl['ser'] = len(exprs); exprs.append(serial_expr(serial_form(c)))
         slots.append(sl)
     model = coq_eval_sharded('c08', 'Alg.GSM', '', exprs, shard=40, jobs=12) if exprs else []
-    for c, r, P, sl in zip(cases, impl, preps, slots):
+    def check_one(c, r, P, sl):
         n = len(c['nodes'])
         chk.count('kind=%s' % c['kind']); chk.count('n=%d' % n); chk.count('malformed=%s' % c['malformed'])
         if c['malformed']:
             if r[0] != 'err' or r[1] != 'ValueError':
                 chk.fail('gsm_tree.optimize_committed_service_times|malformed-%s-accepted' % c['malformed'], 'not rejected with ValueError: %r' % (r[:2],), c)
-            chk.case(c, False); continue
+            chk.case(c, False); return
         if r[0] == 'err':
             chk.fail('gsm_tree.optimize_committed_service_times|raises-%s' % r[1], 'valid tree raises %s: %s' % (r[1], r[2]), c)
-            chk.case(c, False); continue
+            chk.case(c, False); return
         ind, info = oracle_tree(chk, c, r, enum_limit, rng, None)
         cst, cost = r[1], r[2]
+        if not info['shape_ok']:
+            chk.case(c, False); return
+        # ---------- call sequences on the same objects: repeated solve, pre-processed tree as input, edited pre-processed tree, relabelled tree
+        oracle_sequences(chk, c, r, enum_limit)
         if P is not None:
             if any(P['orig'][p] not in ind.ids for p in range(n)): chk.fail('gsm_tree.relabel_nodes|original_label', 'original labels %r' % P['orig'], c)
             else:
@@ -419,6 +558,9 @@ def explore(chk, ncases, nmax, enum_limit, do_model=True, kinds=None):
         r2 = run_tree(c2)
         if r2[0] != 'ok':
             chk.fail('gsm_tree.optimize_committed_service_times|relabelled-raises-%s' % r2[1], 'relabelled copy raises: %s' % r2[2], c)
+        elif shape_problem([d['id'] for d in c2['nodes']], r2[1], r2[2]):
+            # the failing input is the relabelled copy itself
+            chk.fail('gsm_tree.optimize_committed_service_times|cst-keys', shape_problem([d['id'] for d in c2['nodes']], r2[1], r2[2]) + ' (returned %r)' % (r2[1],), c2)
         else:
             if not close(r2[2], cost):
                 chk.fail('gsm_tree.relabel_nodes|cost-depends-on-labels', 'cost %r, after relabelling %r %r' % (cost, mp, r2[2]), c)
@@ -508,6 +650,17 @@ def explore(chk, ncases, nmax, enum_limit, do_model=True, kinds=None):
         chk.case(c, nontriv, case_key(c))
 
 
+    for c, r, P, sl in zip(cases, impl, preps, slots):
+        nf = len(chk.fails)
+        try:
+            check_one(c, r, P, sl)
+        except Exception as e:
+            # the oracle could not digest what the implementation returned for this input (and has not already said why): report the input
+            if len(chk.fails) == nf:
+                import traceback
+                chk.fail('gsm_tree.optimize_committed_service_times|output-not-processable-%s' % exc_kind(e), 'the oracle raised on the output %r: %s' % (r, traceback.format_exc()[-400:]), c)
+            chk.case(c, False)
+
 def run(chk):
     chk.rule = RULE
     chk.trusted += ['model Alg/GSM.v is hand-written; tied to /repo by comparing optimal cost (1e-9), CST vectors (margin rule for ties), max replenishment '
@@ -536,8 +689,13 @@ def replay(chk, rp):
     else:
         ind, info = oracle_tree(chk, c, r, 2000000, chk.rng, None)
         print('enumerated feasible vectors:', info['enum'])
+        if not info['shape_ok']:
+            chk.case(c); return
+        oracle_sequences(chk, c, r, 2000000)
         c2, mp = relabelled(c, chk.rng); r2 = run_tree(c2)
-        if r2[0] == 'ok' and not close(r2[2], r[2]): chk.fail('gsm_tree.relabel_nodes|cost-depends-on-labels', '%r vs %r' % (r[2], r2[2]), c)
+        if r2[0] == 'ok' and shape_problem([d['id'] for d in c2['nodes']], r2[1], r2[2]):
+            chk.fail('gsm_tree.optimize_committed_service_times|cst-keys', shape_problem([d['id'] for d in c2['nodes']], r2[1], r2[2]) + ' (relabelled copy %r)' % (mp,), c)
+        elif r2[0] == 'ok' and not close(r2[2], r[2]): chk.fail('gsm_tree.relabel_nodes|cost-depends-on-labels', '%r vs %r' % (r[2], r2[2]), c)
         if c.get('serial_std'):
             s = serial_form(c)
             for form in ('kw', 'network'):
